@@ -391,6 +391,45 @@ func (e *Engine) Discharge(results []*FuncResult, so SolveOpts) {
 		}
 	}
 	wg.Wait()
+	// thorough tier: the same incremental scripts are run on an independent solver (z3 4.8.12, a different code base generation
+	// than z3 5.1); an obligation the first solver discharged and the second refutes (sat) is reported, never silently accepted.
+	// Timeouts/unknowns of the second solver are not disagreements.
+	if so.CrossCheck {
+		var wg3 sync.WaitGroup
+		for _, fr := range results {
+			files, _ := filepath.Glob(filepath.Join(so.OutDir, sanitize(fr.Key)+"*.smt2"))
+			for _, f := range files {
+				if strings.Contains(filepath.Base(f), "obl_") {
+					continue
+				}
+				wg3.Add(1)
+				go func(fr *FuncResult, f string) {
+					defer wg3.Done()
+					sem <- struct{}{}
+					defer func() { <-sem }()
+					b, _ := os.ReadFile(f)
+					n := strings.Count(string(b), "(check-sat)")
+					out, _ := runSolver(solvers[1], f, 2000, time.Duration(n)*2*time.Second+30*time.Second)
+					st := parseIncremental(out)
+					mu.Lock()
+					defer mu.Unlock()
+					for _, o := range fr.Obls {
+						if o.Canary {
+							continue
+						}
+						if s2, ok := st[o.Seq]; ok {
+							o.Cross = s2
+							if o.Status == "unsat" && s2 == "sat" {
+								o.Status = "sat"
+								o.Solver = "z3 4.8.12 (cross-check disagrees with z3-new)"
+							}
+						}
+					}
+				}(fr, f)
+			}
+		}
+		wg3.Wait()
+	}
 	// phase 2: everything not decided as expected is retried standalone on the portfolio
 	var retry []*Obl
 	for _, fr := range results {
